@@ -1049,6 +1049,19 @@ def oracle_logging(ctx, case, ext, callsb, callst, captured, err):
     return ok
 
 
+def accepted_of(captured, ext):
+    """the captured messages orjson itself (asked directly, not through eliot) serialises under this default function"""
+    import orjson
+    out = []
+    for m in captured:
+        try:
+            orjson.dumps(m, default=default_for(ext))
+            out.append(m)
+        except Exception:  # noqa
+            pass
+    return out
+
+
 def _rle(shape):
     return " ".join(shape[:12]) + (" ..." if len(shape) > 12 else "")
 
@@ -1183,22 +1196,13 @@ def run(ctx):
         callsb, callst, captured, err = feed_logging(ops, ext, via)
         ctx.case(case, nontrivial=len(captured) >= 3, tags=["logging-program", "profile:" + pname, "logging-ext:%s" % ext, "via:" + via])
         ctx.count("messages-logged", n=len(captured))
-        # messages the encoder itself refuses are reported by eliot as eliot:destination_failure messages;
-        # the oracle is only about messages the destination accepted, so refuse-free programs only
-        import orjson
-        refused = 0
-        for m in captured:
-            try:
-                orjson.dumps(m, default=default_for(ext))
-            except Exception:  # noqa
-                refused += 1
-        ok = True
-        if refused == 0:
-            ok = oracle_logging(ctx, case, ext, callsb, callst, captured, err)
-        else:
+        # a message orjson itself refuses (asked directly, not through eliot) is reported by eliot as
+        # eliot:destination_failure messages and must leave no trace in the file; the oracle is about the
+        # accepted ones: one write + one flush each, in order, each line faithful
+        accepted = accepted_of(captured, ext)
+        if len(accepted) != len(captured):
             ctx.count("programs-with-refused-message")
-            if err:
-                ctx.violation("a logging call raised %s into the program" % err, case)
+        ok = oracle_logging(ctx, case, ext, callsb, callst, accepted, err)
         if not ok:
             ctx.count("tie-skipped:oracle-failed")
         for text, calls in ((False, callsb), (True, callst)) if ok else ():
@@ -1361,7 +1365,7 @@ def replay(ctx, obj):
         base = {k: v for k, v in case.items() if k not in ("only",)}
         callsb, callst, captured, err = feed_logging(case["ops"], ext, case.get("via", "default"))
         print("binary", [(c[0], c[1][:80] if c[0] == "w" else None) for c in callsb])
-        oracle_logging(ctx, base, ext, callsb, callst, captured, err)
+        oracle_logging(ctx, base, ext, callsb, callst, accepted_of(captured, ext), err)
     elif kind == "loads":
         tx = "".join(map(chr, case["text"]))
         print("json.loads:", real_loads(tx))
